@@ -150,16 +150,17 @@ def parseTE (p : P) : Except E P :=
     else pure { p with te := [], cl := [], chunked := true }
   | _ :: _ :: _ => throw E.badTE
 
-/-- `parseContentLength` (parser.go:730-759): the first value, trailing spaces removed, through `ParseInt(·, 10, 63)`;
-    negative values rejected; an empty first value counts as absent -/
+/-- `parseContentLength` (parser.go:730-765): absent, or the first value with trailing spaces removed through
+    `ParseInt(·, 10, 63)` (an empty value is an error like any other non-numeric one); negative values rejected; every
+    further Content-Length value must be equal to the first (trailing spaces aside) -/
 def parseCL (p : P) : Except E P :=
-  match p.cl.head? with
-  | some v =>
-    if v = [] then pure { p with contentLength := -1 }
+  match p.cl with
+  | [] => pure { p with contentLength := -1 }
+  | v :: rest =>
+    if rest.any (fun w => trimRightSpaces w != trimRightSpaces v) then throw E.badCL
     else match parseCLValue (trimRightSpaces v) with
       | none => throw E.badCL
       | some l => if l < 0 then throw E.badCL else pure { p with contentLength := l }
-  | none => pure { p with contentLength := -1 }
 
 /-- parseTransferEncoding; parseContentLength at the blank line -/
 def endOfHeaders (p : P) : Except E P := do
